@@ -137,8 +137,10 @@ func (c *Chan) Entry() (IteratorEntry, bool) {
 	return nil, false
 }
 
+// Iter returns a new iterator over the values received from the channel. The
+// iterator keeps its own position: several loops may range over one channel.
 func (c *Chan) Iter() Iterator {
-	return c
+	return &ChanIter{c: c}
 }
 
 func (c *Chan) Send(ctx context.Context, value Object) (err error) {
